@@ -385,6 +385,9 @@ class Gen:
             n = rng.choice(qpreds)
             gb = 0.5 if self.nonground else 1.0
             a = {"f": n, "a": mk_args(arity[n], ["V", "W"], gb)}
+            vs_ = atom_vars(a)
+            if len(vs_) != len(set(vs_)) and rng.random() < 0.85:
+                a["a"][-1] = V("W" if a["a"][0]["v"] == "V" else "V")
             k = json.dumps(a, sort_keys=True)
             if k in seenq:
                 continue
